@@ -950,6 +950,101 @@ Section WriteFile.
   Qed.
 End WriteFile.
 
+(* ---- Rename of a non-directory to a name that does not exist --------------------------------------------------------- *)
+Lemma upd_upd_same (h : heap) (i : nat) (a b : node) : upd (upd h i a) i b = upd h i b.
+Proof. revert i. induction h as [|x h IH]; intros [|i]; cbn [upd]; try reflexivity. rewrite IH. reflexivity. Qed.
+
+Lemma upd_comm (h : heap) (i j : nat) (a b : node) : i <> j -> upd (upd h i a) j b = upd (upd h j b) i a.
+Proof.
+  revert i j. induction h as [|x h IH]; intros [|i] [|j] Hne; cbn [upd]; try reflexivity; try congruence.
+  rewrite IH by congruence. reflexivity.
+Qed.
+
+Lemma aremove_aset_comm (V : Type) (k k2 : str) (x : V) (m : list (str * V)) :
+  k2 <> k -> aremove str_eqb k (aset str_eqb k2 x m) = aset str_eqb k2 x (aremove str_eqb k m).
+Proof.
+  intros Hne. assert (Hkk : str_eqb k k2 = false) by (apply str_eqb_neq; congruence).
+  induction m as [|[k' v'] m IH]; cbn [aset aremove].
+  - rewrite Hkk. reflexivity.
+  - destruct (str_eqb_spec k2 k') as [<-|H2]; cbn [aremove aset].
+    + rewrite Hkk. cbn [aset]. rewrite str_eqb_refl. reflexivity.
+    + destruct (str_eqb k k') eqn:Ek; cbn [aset].
+      * exact IH.
+      * apply str_eqb_neq in H2. rewrite H2. rewrite IH. reflexivity.
+Qed.
+
+Lemma move_commute (h : heap) (op np oc : nat) (oname nname : str) cho mo chn mn :
+  get h op = Some (NDir cho mo) -> get h np = Some (NDir chn mn) -> (op = np -> nname <> oname) ->
+  remove_child (add_child h np nname oc) op oname = add_child (remove_child h op oname) np nname oc.
+Proof.
+  intros Ho Hn Hne. pose proof (wget_lt _ _ _ Ho) as Lo. pose proof (wget_lt _ _ _ Hn) as Ln.
+  destruct (Nat.eq_dec op np) as [E|E].
+  - subst np. rewrite Ho in Hn. injection Hn as <- <-.
+    unfold add_child, remove_child. rewrite Ho.
+    rewrite !wget_upd_same by assumption. rewrite !upd_upd_same.
+    rewrite aremove_aset_comm by (apply Hne; reflexivity). reflexivity.
+  - unfold add_child at 1. rewrite Hn. unfold remove_child at 1. rewrite wget_upd_other by congruence. rewrite Ho.
+    unfold remove_child. rewrite Ho. unfold add_child. rewrite wget_upd_other by congruence. rewrite Hn.
+    apply upd_comm. congruence.
+Qed.
+
+Definition source_not_dir (s : fsys) (sv : sview) (cs : list str) : Prop :=
+  forall par kind name n, klookup s sv false false (abs_path cs) = WNode par kind name n ->
+                          node_is_dir (f_heap s) n = false.
+
+Theorem step_rename_new (s : fsys) (sv : sview) (wo : list str) (clo : str) (wn : list str) (cln : str) (np : nat) (md : bool) :
+  step_hyps s sv -> path_ok s sv SlLstat (wo ++ [clo]) -> path_ok s sv SlLstat (wn ++ [cln]) ->
+  source_not_dir s sv (wo ++ [clo]) ->
+  klookup s sv false false (abs_path (wn ++ [cln])) = WNeg np cln md ->
+  let o := abs_path (wo ++ [clo]) in
+  let n := abs_path (wn ++ [cln]) in
+  (fst (rename s (sv_view sv) o n), proj_res Linux (snd (rename s (sv_view sv) o n))) = go_rename s sv o n.
+Proof.
+  intros H Hpo Hpn Hnd HKn o n.
+  pose proof (resolve s sv SlLstat (wo ++ [clo]) H Hpo) as Ro. pose proof (resolve s sv SlLstat (wn ++ [cln]) H Hpn) as Rn.
+  destruct Hpo as (Hgo & Hko & Hnfo & _). destruct Hpn as (Hgn & Hkn & Hnfn & _).
+  change (follow_of SlLstat) with false in Ro, Rn, Hko, Hkn. change (precise_of SlLstat) with true in Ro, Rn.
+  destruct (klookup_pm s sv false wo clo Hgo Hko) as (Hono & Hong & Hpmo).
+  destruct (klookup_pm s sv false wn cln Hgn Hkn) as (_ & _ & Hpmn).
+  pose proof (klookup_final s sv false (wo ++ [clo]) Hgo) as Fo.
+  pose proof (klookup_final s sv false (wn ++ [cln]) Hgn) as Fn.
+  rewrite HKn in Rn, Hpmn, Fn. cbn [walk_rel] in Rn. destruct Fn as (Fn1 & Fn2 & _).
+  destruct Rn as (N1 & N2 & N3 & N4). destruct (at_name_views _ _ _ _ _ _ (N4 eq_refl)) as (NV1 & NV2 & dn & NP & NW & NG).
+  unfold o, n, rename, go_rename, k_rename. unfold k_stat at 1. rewrite HKn, Hpmo, Hpmn. cbv beta iota zeta.
+  set (ro := search_node s (sv_view sv) (abs_path (wo ++ [clo])) SlLstat) in *.
+  set (rn := search_node s (sv_view sv) (abs_path (wn ++ [cln])) SlLstat) in *.
+  unfold source_not_dir in Hnd.
+  destruct (klookup s sv false false (abs_path (wo ++ [clo]))) as [op okind oname oc|op oname omd|a b c d|e] eqn:HKo;
+    cbn [walk_rel] in Ro.
+  - destruct (Hono _ _ _ _ eq_refl) as (-> & ->). destruct Fo as (Fo1 & Fo2 & _).
+    destruct Ro as (O1 & O2 & O3 & _ & _ & O4). destruct (O4 eq_refl) as (O5 & O6).
+    destruct (at_name_views _ _ _ _ _ _ (O6 eq_refl)) as (OV1 & _ & do & OP & OW & OG).
+    specialize (Hnd _ _ _ _ eq_refl).
+    assert (Hvo : get (f_heap s) op <> None) by (apply node_is_dir_valid; exact Fo2).
+    assert (Hvn : get (f_heap s) np <> None) by (apply node_is_dir_valid; exact Fn2).
+    rewrite O1, N1, NV2, O5, O2, N3, OV1, NV1, N2. cbn [is_file_exists is_not_exist negb andb orb].
+    rewrite !(admin_perm_on s sv _ _ H) by assumption. cbn [negb andb]. rewrite andb_false_r.
+    (* the two resolved paths differ *)
+    assert (Hdiff : str_eqb (pi_path (sr_pi ro)) (pi_path (sr_pi rn)) = false).
+    { apply str_eqb_neq. rewrite OP, NP. intros E.
+      apply abs_path_inj in E; [|apply Forall_comp_ok_of; exact OG|apply Forall_comp_ok_of; exact NG].
+      apply app_inj_tail in E as (-> & ->). rewrite OW in NW. injection NW as ->. congruence. }
+    rewrite Hdiff. cbn [orb]. rewrite Fo1, Fn1. rewrite Hnd. cbn [negb andb].
+    rewrite !(admin_may_delete s sv _ _ _ H) by assumption. rewrite Hnd.
+    rewrite (admin_kperm s sv np 3 H) by assumption.
+    destruct (node_is_dir_get _ _ Fo2) as (cho & mo & Hgo'). destruct (node_is_dir_get _ _ Fn2) as (chn & mn & Hgn').
+    assert (Hmove : remove_child (add_child (f_heap s) np cln oc) op clo
+                    = add_child (remove_child (f_heap s) op clo) np cln oc).
+    { apply (move_commute _ _ _ _ _ _ cho mo chn mn Hgo' Hgn'). intros -> ->. congruence. }
+    unfold node_is_dir in Hnd.
+    destruct (get (f_heap s) oc) as [[ch m|dt k i m|t m]|] eqn:Hgoc; try discriminate Hnd; try congruence;
+      rewrite Hmove; reflexivity.
+  - pose proof (Hong _ _ _ eq_refl) as ->. destruct Fo as (Fo1 & _). destruct Ro as (O1 & _). rewrite O1, Fo1. reflexivity.
+  - destruct Ro.
+  - destruct Ro as (O1 & _). destruct (werr_cases _ _ O1 Hnfo) as (Hc & ->).
+    destruct Hc as [Hc|[Hc|[Hc|Hc]]]; rewrite Hc; reflexivity.
+Qed.
+
 (* ---- the step theorem at the level of worlds --------------------------------------------------------------------- *)
 (* the specification state [sw] abstracts the world [w] seen through view [vi]: same file system, same view
    (the working directory plays no role for absolute paths) *)
@@ -984,6 +1079,11 @@ Definition covered (vi : nat) (sw : sworld) (c : call) : Prop :=
   | CLchown vi' p _ _ => vi' = vi /\ exists cs, p = abs_path cs /\ path_ok s sv SlLstat cs /\ no_setid s sv false cs
   | CReadFile vi' p => vi' = vi /\ exists cs, p = abs_path cs /\ path_ok s sv SlEval cs
   | CReadDir vi' p => vi' = vi /\ ptr_valid (f_heap s) /\ exists cs, p = abs_path cs /\ path_ok s sv SlEval cs
+  | CRename vi' o p =>
+      vi' = vi /\ exists wo clo wn cln np md,
+        o = abs_path (wo ++ [clo]) /\ p = abs_path (wn ++ [cln]) /\ path_ok s sv SlLstat (wo ++ [clo])
+        /\ path_ok s sv SlLstat (wn ++ [cln]) /\ source_not_dir s sv (wo ++ [clo])
+        /\ klookup s sv false false (abs_path (wn ++ [cln])) = WNeg np cln md
   | CWriteFile vi' p _ _ =>
       vi' = vi /\ exists w cl, p = abs_path (w ++ [cl]) /\ path_ok s sv SlLstat (w ++ [cl])
                                /\ path_ok s sv SlEval (w ++ [cl]) /\ no_setgid_parent_follow s sv (w ++ [cl])
@@ -1018,6 +1118,8 @@ Section StepEqns.
   Lemma wstep_mkdir p perm : wstep w (CMkdir vi p perm) = lift w (mkdir (w_fs w) v p perm).
   Proof. unfold wstep, on_view. rewrite Hv. reflexivity. Qed.
   Lemma wstep_remove p : wstep w (CRemove vi p) = lift w (remove (w_fs w) v p).
+  Proof. unfold wstep, on_view. rewrite Hv. reflexivity. Qed.
+  Lemma wstep_rename o p : wstep w (CRename vi o p) = lift w (rename (w_fs w) v o p).
   Proof. unfold wstep, on_view. rewrite Hv. reflexivity. Qed.
   Lemma wstep_link o p : wstep w (CLink vi o p) = lift w (link (w_fs w) v o p).
   Proof. unfold wstep, on_view. rewrite Hv. reflexivity. Qed.
@@ -1056,6 +1158,9 @@ Lemma spec_mkdir sw vi p perm : spec_step true sw (CMkdir vi p perm)
 Proof. reflexivity. Qed.
 Lemma spec_remove sw vi p : spec_step true sw (CRemove vi p)
   = ({| sw_fs := fst (go_remove (sw_fs sw) (sw_sv sw) p); sw_sv := sw_sv sw |}, snd (go_remove (sw_fs sw) (sw_sv sw) p)).
+Proof. reflexivity. Qed.
+Lemma spec_rename sw vi o p : spec_step true sw (CRename vi o p)
+  = ({| sw_fs := fst (go_rename (sw_fs sw) (sw_sv sw) o p); sw_sv := sw_sv sw |}, snd (go_rename (sw_fs sw) (sw_sv sw) o p)).
 Proof. reflexivity. Qed.
 Lemma spec_link sw vi o p : spec_step true sw (CLink vi o p)
   = ({| sw_fs := fst (k_link true (sw_fs sw) (sw_sv sw) o p); sw_sv := sw_sv sw |}, snd (k_link true (sw_fs sw) (sw_sv sw) o p)).
@@ -1130,6 +1235,12 @@ Proof.
     + apply (impl_lift w _ _ (wstep_remove w vi _ Hv p)); [left; discriminate|exact I].
     + apply spec_remove.
     + rewrite <- Hfs, Ep. exact (step_remove (sw_fs sw) (sw_sv sw) ww cl H Hp Hss).
+  - (* Rename *)
+    destruct Hc as (-> & wo & clo & wn & cln & np & md & Eo & Ep & Hpo & Hpn & Hnd & HKn).
+    apply (world_of_lift w vi sw _ (rename (w_fs w) (sv_view (sw_sv sw)) o n) (go_rename (sw_fs sw) (sw_sv sw) o n) Ha).
+    + apply (impl_lift w _ _ (wstep_rename w vi _ Hv o n)); [left; discriminate|exact I].
+    + apply spec_rename.
+    + rewrite <- Hfs, Eo, Ep. exact (step_rename_new (sw_fs sw) (sw_sv sw) wo clo wn cln np md H Hpo Hpn Hnd HKn).
   - (* Link *)
     destruct Hc as (-> & co & ww & cl & Eo & Ep & Hpo & Hp & Hns).
     apply (world_of_lift w vi sw _ (link (w_fs w) (sv_view (sw_sv sw)) o n) (k_link true (sw_fs sw) (sw_sv sw) o n) Ha).
